@@ -66,7 +66,7 @@ static const struct bcfg BCFG_C03[] = {
 };
 
 /* parameters */
-static int p_depth, p_slots, p_pools, p_cfgs, p_nocache, p_durs, p_cdurs, p_wake, p_scripts, p_loopmask, p_npri;
+static int p_pool, p_cfg, p_depth, p_slots, p_pools, p_cfgs, p_nocache, p_durs, p_cdurs, p_wake, p_scripts, p_loopmask, p_npri;
 
 /* ------------------------------------------------------------------ */
 /* callbacks                                                            */
@@ -557,6 +557,8 @@ static void init(void)
 	p_depth = mc_param("depth", 4);
 	p_slots = mc_param("slots", 3);
 	p_pools = mc_param("pools", 1);
+	p_pool = mc_param("pool", -1);          /* fixed pool index instead of a choice */
+	p_cfg = mc_param("cfg", -1);            /* fixed C03 base configuration */
 	p_cfgs = mc_param("cfgs", 1);
 	p_nocache = mc_param("nocache", 0);      /* 0 cached, 1 NO_CACHE_TIME, 2 both (choice) */
 	p_durs = mc_param("durs", 6);
@@ -594,13 +596,19 @@ static void setup(void)
 	case 3: pools = POOL_C03; npools = 1; break;
 	default: pools = POOL_C45; npools = 1; CFG.npri = 1; break;
 	}
-	if (p_pools < npools) npools = p_pools;
-	if (npools > 1) pi = mc_choose(npools, 0, "pool");
+	if (p_pool >= 0 && p_pool < npools) pi = p_pool;
+	else {
+		if (p_pools < npools) npools = p_pools;
+		if (npools > 1) pi = mc_choose(npools, 0, "pool");
+	}
 	pool = &pools[pi];
 	if (PROP == 3) {
 		int n = (int)(sizeof BCFG_C03 / sizeof BCFG_C03[0]);
-		if (p_cfgs < n) n = p_cfgs;
-		if (n > 1) ci = mc_choose(n, 0, "cfg");
+		if (p_cfg >= 0 && p_cfg < n) ci = p_cfg;
+		else {
+			if (p_cfgs < n) n = p_cfgs;
+			if (n > 1) ci = mc_choose(n, 0, "cfg");
+		}
 		CFG.npri = BCFG_C03[ci].npri; CFG.maxcb = BCFG_C03[ci].maxcb < 0 ? EM_NOLIMIT : BCFG_C03[ci].maxcb;
 		CFG.maxtime = BCFG_C03[ci].maxtime; CFG.limit_after = BCFG_C03[ci].limit_after;
 	}
